@@ -143,3 +143,19 @@ Definition tcase_spec_violation (c : tcase) : bool :=
   | Some p => negb (olist_eqb (fresh_run p (tc_ctx c) (tc_windows c)) (tc_tail c))
   end.
 Definition tail_spec_violations (cs : list tcase) : list Z := map tc_id (filter tcase_spec_violation cs).
+
+(* ---------- reviewed places where Go ranges over a map while building SQL (coq/gen/GenSqlSites.v
+   lists what the sources contain today; anything not listed here fails the obligation) ----------
+   * labelsGetter.getFetchRequest: the keys become the elements of an IN (...) list: the text varies with
+     the iteration order, the meaning does not (in_list_perm);
+   * Select.String: the SETTINGS clause; unreachable while nothing calls SetSetting
+     (set_setting_calls = []), see render_order_independent / settings_order_matters. *)
+Definition site4 := (string * string * string * string)%type.
+Definition reviewed_ranges : list site4 :=
+  [("reader/service/promQueryable.go", "labelsGetter.getFetchRequest", "l.fingerprintToFetch", "k");
+   ("reader/utils/sql_select/select.go", "Select.String", "s.settings", "kv")].
+Definition site4_eqb (a b : site4) : bool :=
+  let '(a1, a2, a3, a4) := a in let '(b1, b2, b3, b4) := b in
+  String.eqb a1 b1 && String.eqb a2 b2 && String.eqb a3 b3 && String.eqb a4 b4.
+Definition unreviewed_ranges (l : list site4) : list site4 :=
+  filter (fun r => negb (existsb (site4_eqb r) reviewed_ranges)) l.
